@@ -59,7 +59,8 @@ def cases(tier, seed):
             for tl in lists:
                 if tier == 'quick' and rnd.random() > 0.17:
                     continue
-                yield dict(served=served, sup=sup, ctx=[[1, ab, tl]], seed=seed)
+                yield dict(served=served, sup=sup, ctx=[[1, ab, tl]], seed=seed,
+                           scu_first=(len(tl) + ab) % 3 if served else 0)
     if tier == 'thorough':
         short = [l for l in lists if len(l) <= 2]
         for served, sup in cfgs:
@@ -93,7 +94,8 @@ def cases(tier, seed):
         ctx = [[pid, rnd.randrange(3), rnd.choice(lists)] for pid in ids]
         yield dict(served=served, sup=sup, ctx=ctx, seed=seed * 100003 + i,
                    titles=[rnd.choice(['SRV', 'A', 'SIXTEEN_CHARS_AE', 'x y']),
-                           rnd.choice(['CLI', 'B', 'CALLING_AE_TITLE'])])
+                           rnd.choice(['CLI', 'B', 'CALLING_AE_TITLE'])],
+                   scu_first=rnd.choice([0, 0, 1, 2]))
 
 
 def _hot_case(case):
@@ -233,6 +235,12 @@ def run_case(case):
             asce.send(rsp, ctx.id)
         sentinel.sop_classes = list(served)
         ae = world.make_ae(applicationentity.AE, 'SRV', 11112, sup, 16384)
+        if case.get('scu_first') and served:
+            # the entity also USES some of the classes it serves, and was told so first
+            def as_user(asce, ctx, *a):
+                return None
+            as_user.sop_classes = list(served[:case['scu_first']])
+            ae.add_scu(as_user)
         ae.add_scp(sentinel)
         world.serve_ae(ae, ADDR)
         out = {}
